@@ -323,14 +323,18 @@ def run(env):
         res = env.drive(name, text)
         env.require_complete(res, name)
         env.pmap(monitor_all, res.sessions, workload="long")
+    # other code generation settings and conjunctions of them: two mixed builds every time (no-alloc + panic=abort + opt-level
+    # s + native CPU; std + panic=abort + opt-level z, no debug assertions); thorough: single-axis variations and the
+    # pairwise covering set of lib/framework.py
+    from props.c13 import slice_text
+    mtext = slice_text(generate(env, "impl", 1, 4), env.seed % 2, 8 if env.quick() else 2)
+    blist = ["mix-noalloc-abort-s-native", "mix-std-abort-z"]
     if not env.quick():
-        # other optimisation levels and the host's full CPU feature set: a slice of the sender workload each
-        from props.c13 import slice_text
-        mtext = slice_text(generate(env, "impl", 1, 4), 0, 2)
-        for b in ("opt0", "opt1", "opts", "optz", "native"):
-            rb = env.drive("matrix", mtext, build=b)
-            env.require_complete(rb, "matrix/" + b)
-            env.pmap(monitor, rb.sessions, workload="impl-sender")
+        blist += ["opt0", "opt1", "opts", "optz", "native"] + fw.pairwise_builds()
+    for b in blist:
+        rb = env.drive("matrix", mtext, build=b)
+        env.require_complete(rb, "matrix/" + (b if isinstance(b, str) else b.name))
+        env.pmap(monitor, rb.sessions, workload="impl-sender")
     if not env.quick():
         # info / psk / psk_id / exporter context / ikm of 2^32+5 bytes against the reference
         from lib import giant
